@@ -5,7 +5,7 @@ import numpy as np
 import z3
 
 from vt.harness import grid, harness
-from vt.props.common import R2D, angdiff, isnan, item, mk_spec, positions, rows, total
+from vt.props.common import R2D, angdiff, isnan, item, mk_spec, near, positions, rows, total
 from vt.refs import integrals as I
 from vt.symreal import sym as S
 from vt.symreal.sym import Sym
@@ -306,3 +306,61 @@ def hmax(env, g):
     env.assume(total(vals) > 0)
     out = item(da.spec.hmax())
     env.close(out * out, 1.86**2 * I.hs2(E, f, d), "hmax=1.86 hs (no time axis)")
+
+
+def _contains(term, sub):
+    stack, seen = [term], set()
+    while stack:
+        x = stack.pop()
+        if x.get_id() in seen:
+            continue
+        seen.add(x.get_id())
+        if x.eq(sub):
+            return True
+        stack.extend(x.children())
+    return False
+
+
+@harness(P, quick=grid(g=["G3"]), thorough=grid(g=["G2"]), max_paths=200)
+def hmax_time(env, g):
+    """with a time axis: hmax = sqrt(0.5 ln N) hs, N = round(dt / tm02), dt the (constant) step in seconds."""
+    lead = (("time", 2),)
+    da, vals = mk_spec(env, g, lead=lead)
+    f, d = da.freq.values, da.dir.values
+    for t in range(2):
+        env.assume(total(vals[t]) > 0)
+    dt_s = 3 * 3600.0
+    out = da.spec.hmax()
+    env.claim(tuple(out.dims) == ("time",), "hmax keeps the time dimension")
+    if env.sym:
+        c = S.ctx()
+        for t in range(2):
+            E = rows(vals[t])
+            o = item(out.isel(time=t))
+            if isnan(o):
+                env.claim(False, "hmax is defined for a spectrum with energy (N >= 1)", {"time": t})
+                continue
+            m0, m2 = I.momf(E, f, d, 0), I.momf(E, f, d, 2)
+            # structure: o = k * hs, k = sqrt(0.5 * log(N)), N = rint(dt / tm02), tm02 = sqrt(m0/m2)
+            ok = False
+            for arg, r in c.calls["rint"]:
+                # arg must be dt / y with y^2 = m0/m2
+                for rad, y in c.calls["sqrt"]:
+                    if y.get_id() in c.vars_of(arg) and env.proves(near(env, Sym(rad) * m2, m0, rel=1e-9, abs_=0.0)) and env.proves(near(env, Sym(arg) * Sym(y), dt_s, rel=1e-12, abs_=0.0)):
+                        for larg, lt in c.calls["log"]:
+                            if larg.eq(r):
+                                for rad2, k in c.calls["sqrt"]:
+                                    if _contains(rad2, lt) and env.proves(near(env, Sym(rad2), 0.5 * Sym(lt), rel=1e-12, abs_=0.0)):
+                                        hs2 = I.hs2(E, f, d)
+                                        if env.proves(near(env, o * o, Sym(rad2) * hs2, rel=1e-9, abs_=0.0)):
+                                            ok = True
+            env.claim(ok, "hmax^2 = 0.5 ln(round(dt/tm02)) hs^2 with tm02^2 = m0/m2 and dt the time step in seconds", {"time": t})
+    else:
+        for t in range(2):
+            E = rows(vals[t])
+            m0, m2 = float(I.momf(E, f, d, 0)), float(I.momf(E, f, d, 2))
+            hs = math.sqrt(float(I.hs2(E, f, d)))
+            n = round(dt_s / math.sqrt(m0 / m2))
+            ref = math.sqrt(0.5 * math.log(n)) * hs if n >= 1 else float("nan")
+            o = float(item(out.isel(time=t)))
+            env.claim((math.isnan(o) and math.isnan(ref)) or abs(o - ref) <= 1e-5 * abs(ref) + 1e-9, "hmax^2 = 0.5 ln(round(dt/tm02)) hs^2 with tm02^2 = m0/m2 and dt the time step in seconds", {"time": t, "impl": o, "ref": ref})
